@@ -16,52 +16,82 @@ R256 == [j \in 1..22 |-> IF j = 22 THEN 16 ELSE 0]
 (* ---- signed integers ---- *)
 SOf(x) == [p |-> x, n |-> <<>>]
 SZero == SOf(<<>>)  SOne == SOf(One)
-SAdd(a, b) == [p |-> Add(a.p, b.p), n |-> Add(a.n, b.n)]
-SSub(a, b) == [p |-> Add(a.p, b.n), n |-> Add(a.n, b.p)]
-SNeg(a) == [p |-> a.n, n |-> a.p]
-SMul(a, b) == [p |-> Add(Mul(a.p, b.p), Mul(a.n, b.n)), n |-> Add(Mul(a.p, b.n), Mul(a.n, b.p))]
-SScale(k, a) == [p |-> Mul(Small(k), a.p), n |-> Mul(Small(k), a.n)]
+SAddR(a, b) == [p |-> Add(a.p, b.p), n |-> Add(a.n, b.n)]
+SAdd(a, b) == Once2(SAddR, a, b)
+SSubR(a, b) == [p |-> Add(a.p, b.n), n |-> Add(a.n, b.p)]
+SSub(a, b) == Once2(SSubR, a, b)
+SNegR(a) == [p |-> a.n, n |-> a.p]
+SNeg(a) == Once1(SNegR, a)
+SMulR(a, b) == [p |-> Add(Mul(a.p, b.p), Mul(a.n, b.n)), n |-> Add(Mul(a.p, b.n), Mul(a.n, b.p))]
+SMul(a, b) == Once2(SMulR, a, b)
+SScaleR(k, a) == [p |-> Mul(Small(k), a.p), n |-> Mul(Small(k), a.n)]
+SScale(k, a) == Once2(SScaleR, k, a)
 (* value == r (mod P9), 0 <= r < P9, witnessed by w = [k, s] *)
 SCong(v, r, w) == DiffModOK(v.p, v.n, P9, w.k, w.s, r)
 (* ---- F_p^2: <<a0, a1>> = a0 + a1 u, u^2 = -2 ---- *)
-F2Add(a, b) == <<SAdd(a[1], b[1]), SAdd(a[2], b[2])>>
-F2Sub(a, b) == <<SSub(a[1], b[1]), SSub(a[2], b[2])>>
-F2Neg(a) == <<SNeg(a[1]), SNeg(a[2])>>
-F2Scale(k, a) == <<SScale(k, a[1]), SScale(k, a[2])>>
-F2Mul(a, b) == <<SSub(SMul(a[1], b[1]), SScale(2, SMul(a[2], b[2]))), SAdd(SMul(a[1], b[2]), SMul(a[2], b[1]))>>
-F2MulU(a) == <<SNeg(SScale(2, a[2])), a[1]>>                       \* a * u
-F2MulFp(a, k) == <<SMul(a[1], k), SMul(a[2], k)>>
-F2Conj(a) == <<a[1], SNeg(a[2])>>                                  \* = a^p, since u^p = -u
+F2AddR(a, b) == <<SAdd(a[1], b[1]), SAdd(a[2], b[2])>>
+F2Add(a, b) == Once2(F2AddR, a, b)
+F2SubR(a, b) == <<SSub(a[1], b[1]), SSub(a[2], b[2])>>
+F2Sub(a, b) == Once2(F2SubR, a, b)
+F2NegR(a) == <<SNeg(a[1]), SNeg(a[2])>>
+F2Neg(a) == Once1(F2NegR, a)
+F2ScaleR(k, a) == <<SScale(k, a[1]), SScale(k, a[2])>>
+F2Scale(k, a) == Once2(F2ScaleR, k, a)
+F2MulR(a, b) == <<SSub(SMul(a[1], b[1]), SScale(2, SMul(a[2], b[2]))), SAdd(SMul(a[1], b[2]), SMul(a[2], b[1]))>>
+F2Mul(a, b) == Once2(F2MulR, a, b)
+F2MulUR(a) == <<SNeg(SScale(2, a[2])), a[1]>>                       \* a * u
+F2MulU(a) == Once1(F2MulUR, a)
+F2MulFpR(a, k) == <<SMul(a[1], k), SMul(a[2], k)>>
+F2MulFp(a, k) == Once2(F2MulFpR, a, k)
+F2ConjR(a) == <<a[1], SNeg(a[2])>>                                  \* = a^p, since u^p = -u
+F2Conj(a) == Once1(F2ConjR, a)
 F2Zero == <<SZero, SZero>>  F2One == <<SOne, SZero>>
 (* ---- F_p^4: <<b0, b1>> = b0 + b1 v, v^2 = u ---- *)
-F4Add(a, b) == <<F2Add(a[1], b[1]), F2Add(a[2], b[2])>>
-F4Sub(a, b) == <<F2Sub(a[1], b[1]), F2Sub(a[2], b[2])>>
-F4Neg(a) == <<F2Neg(a[1]), F2Neg(a[2])>>
-F4Scale(k, a) == <<F2Scale(k, a[1]), F2Scale(k, a[2])>>
-F4Mul(a, b) == <<F2Add(F2Mul(a[1], b[1]), F2MulU(F2Mul(a[2], b[2]))), F2Add(F2Mul(a[1], b[2]), F2Mul(a[2], b[1]))>>
-F4MulV(a) == <<F2MulU(a[2]), a[1]>>                                \* a * v
-F4MulFp(a, k) == <<F2MulFp(a[1], k), F2MulFp(a[2], k)>>
-F4MulFp2(a, c) == <<F2Mul(a[1], c), F2Mul(a[2], c)>>
-F4Conj(a) == <<a[1], F2Neg(a[2])>>
+F4AddR(a, b) == <<F2Add(a[1], b[1]), F2Add(a[2], b[2])>>
+F4Add(a, b) == Once2(F4AddR, a, b)
+F4SubR(a, b) == <<F2Sub(a[1], b[1]), F2Sub(a[2], b[2])>>
+F4Sub(a, b) == Once2(F4SubR, a, b)
+F4NegR(a) == <<F2Neg(a[1]), F2Neg(a[2])>>
+F4Neg(a) == Once1(F4NegR, a)
+F4ScaleR(k, a) == <<F2Scale(k, a[1]), F2Scale(k, a[2])>>
+F4Scale(k, a) == Once2(F4ScaleR, k, a)
+F4MulR(a, b) == <<F2Add(F2Mul(a[1], b[1]), F2MulU(F2Mul(a[2], b[2]))), F2Add(F2Mul(a[1], b[2]), F2Mul(a[2], b[1]))>>
+F4Mul(a, b) == Once2(F4MulR, a, b)
+F4MulVR(a) == <<F2MulU(a[2]), a[1]>>                                \* a * v
+F4MulV(a) == Once1(F4MulVR, a)
+F4MulFpR(a, k) == <<F2MulFp(a[1], k), F2MulFp(a[2], k)>>
+F4MulFp(a, k) == Once2(F4MulFpR, a, k)
+F4MulFp2R(a, c) == <<F2Mul(a[1], c), F2Mul(a[2], c)>>
+F4MulFp2(a, c) == Once2(F4MulFp2R, a, c)
+F4ConjR(a) == <<a[1], F2Neg(a[2])>>
+F4Conj(a) == Once1(F4ConjR, a)
 F4Zero == <<F2Zero, F2Zero>>  F4One == <<F2One, F2Zero>>
 (* ---- F_p^12: <<c0, c1, c2>> = c0 + c1 w + c2 w^2, w^3 = v ---- *)
-F12Add(a, b) == <<F4Add(a[1], b[1]), F4Add(a[2], b[2]), F4Add(a[3], b[3])>>
-F12Sub(a, b) == <<F4Sub(a[1], b[1]), F4Sub(a[2], b[2]), F4Sub(a[3], b[3])>>
-F12Neg(a) == <<F4Neg(a[1]), F4Neg(a[2]), F4Neg(a[3])>>
-F12Scale(k, a) == <<F4Scale(k, a[1]), F4Scale(k, a[2]), F4Scale(k, a[3])>>
-F12Mul(a, b) == <<F4Add(F4Mul(a[1], b[1]), F4MulV(F4Add(F4Mul(a[2], b[3]), F4Mul(a[3], b[2])))),
+F12AddR(a, b) == <<F4Add(a[1], b[1]), F4Add(a[2], b[2]), F4Add(a[3], b[3])>>
+F12Add(a, b) == Once2(F12AddR, a, b)
+F12SubR(a, b) == <<F4Sub(a[1], b[1]), F4Sub(a[2], b[2]), F4Sub(a[3], b[3])>>
+F12Sub(a, b) == Once2(F12SubR, a, b)
+F12NegR(a) == <<F4Neg(a[1]), F4Neg(a[2]), F4Neg(a[3])>>
+F12Neg(a) == Once1(F12NegR, a)
+F12ScaleR(k, a) == <<F4Scale(k, a[1]), F4Scale(k, a[2]), F4Scale(k, a[3])>>
+F12Scale(k, a) == Once2(F12ScaleR, k, a)
+F12MulR(a, b) == <<F4Add(F4Mul(a[1], b[1]), F4MulV(F4Add(F4Mul(a[2], b[3]), F4Mul(a[3], b[2])))),
                   F4Add(F4Add(F4Mul(a[1], b[2]), F4Mul(a[2], b[1])), F4MulV(F4Mul(a[3], b[3]))),
                   F4Add(F4Add(F4Mul(a[1], b[3]), F4Mul(a[2], b[2])), F4Mul(a[3], b[1]))>>
+F12Mul(a, b) == Once2(F12MulR, a, b)
 F12One == <<F4One, F4Zero, F4Zero>>
 (* ---- byte serialisations (high coefficient first, as in the standard) ---- *)
 F2B(b) == <<SOf(FromBytes(SubSeq(b, 33, 64))), SOf(FromBytes(SubSeq(b, 1, 32)))>>
 F4B(b) == <<F2B(SubSeq(b, 65, 128)), F2B(SubSeq(b, 1, 64))>>
 F12B(b) == <<F4B(SubSeq(b, 257, 384)), F4B(SubSeq(b, 129, 256)), F4B(SubSeq(b, 1, 128))>>
-Flat2(a) == <<a[1], a[2]>>
-Flat4(a) == Flat2(a[1]) \o Flat2(a[2])
-Flat12(a) == Flat4(a[1]) \o Flat4(a[2]) \o Flat4(a[3])
+Flat2R(a) == <<a[1], a[2]>>
+Flat2(a) == Once1(Flat2R, a)
+Flat4R(a) == Flat2(a[1]) \o Flat2(a[2])
+Flat4(a) == Once1(Flat4R, a)
+Flat12R(a) == Flat4(a[1]) \o Flat4(a[2]) \o Flat4(a[3])
+Flat12(a) == Once1(Flat12R, a)
 (* coordinates of formula f are congruent to the coordinates r (signed leaves, each below p), witnesses ws *)
-AllCong(f, r, ws) == Len(f) = Len(r) /\ Len(ws) = Len(f) /\ \A j \in 1..Len(f) : SCong(f[j], r[j].p, ws[j])
+AllCong(f, r, ws) == \E ff \in {f}, rr \in {r} : Len(ff) = Len(rr) /\ Len(ws) = Len(ff) /\ \A j \in 1..Len(ff) : \E v \in {ff[j]} : SCong(v, rr[j].p, ws[j])
 (* ---- G1: y^2 = x^3 + 5, chord / tangent relations with slope witness (as Sm2Curve, a = 0) ---- *)
 Cong9(Aa, Bb, w) == DiffModOK(Aa, Bb, P9, w.k, w.s, <<>>)
 AddOK9(x1, y1, x2, y2, x3, y3, lam, w1, w2, w3, dbl) ==
